@@ -227,7 +227,10 @@ def run(ctx):
             chunk = src_of(loop.target) if loop is not None else "?"
             ok = len(slots) == 6
             why, missing = [], []
-            if ok:
+            off = _offset_loop_framing(sd, loop, slots, defs, start_name) if ok and loop is not None else None
+            if off is not None:
+                why = off            # blocks cut by a running offset: `for i in range(0, len(W), K): block = W[i:i+K]`
+            elif ok:
                 ch, p_, n_, k_, n2, d_ = slots
                 if n_ != n2:
                     why.append("the length field and the header's length differ")
@@ -416,6 +419,47 @@ def run(ctx):
     ctx.require_min("C20.3", 1)
     ctx.require_min("C20.4", 1)
     ctx.require_min("C20.5", 4)
+
+
+def _offset_loop_framing(sd, loop, slots, defs, start_name):
+    """the write loop in its second idiom - the channel's bits held as ONE sequence W and cut by a running offset:
+        for i in range(0, len(W), K):  B = W[i:i+K];  p = start + i;  n = len(B);  k = len(str(n));  send(ch, p, n, k, n, B)
+    -> list of discrepancies ([] = framing holds), or None when the loop is not of this shape"""
+    it_ = loop.iter
+    if not (isinstance(it_, ast.Call) and src_of(it_.func) == "range" and len(it_.args) == 3 and src_of(it_.args[0]) == "0" and isinstance(loop.target, ast.Name)):
+        return None
+    i = loop.target.id
+    stop, K = src_of(it_.args[1]).replace(" ", ""), src_of(it_.args[2]).replace(" ", "")
+    m = re.fullmatch(r"len\((\w+)\)|(\w+)\.size", stop)
+    if not m:
+        return None
+    W = m.group(1) or m.group(2)
+    ch, p_, n_, k_, n2, d_ = slots
+    why = []
+    B = d_ if defs.get(d_, "").startswith(W + "[") else None
+    payload_joined = False
+    if B is None and "join" in defs.get(d_, ""):
+        mj = re.search(r"join\((\w+)", defs[d_])
+        if mj and defs.get(mj.group(1), "").startswith(W + "["):
+            B, payload_joined = mj.group(1), True
+    if B is None:
+        return None
+    if defs.get(B) != f"{W}[{i}:{i}+{K}]":
+        why.append(f"the block `{B}` is not {W}[{i}:{i}+{K}]: blocks overlap or leave gaps")
+    if n_ != n2:
+        why.append("the length field and the header's length differ")
+    if defs.get(n_) not in (f"len({B})", f"{B}.size"):
+        why.append(f"`{n_}` is not the block's size")
+    if defs.get(k_) != f"len(str({n_}))":
+        why.append(f"`{k_}` is not the digit count of the block length")
+    addr = defs.get(p_, p_ if not p_.isidentifier() else None)
+    if addr is None or addr.replace(" ", "") not in (f"{start_name}+{i}", f"{i}+{start_name}"):
+        why.append(f"the address is not {start_name} + the block's offset")
+    # W is the channel's bits as characters (a string sliced into sub-strings) or an array whose blocks are joined
+    wdefs = [src_of(n.value) for n in body_nodes(sd) if isinstance(n, ast.Assign) and src_of(n.targets[0]) == W]
+    if not payload_joined and not any(("join" in w or "decode" in w or "tobytes" in w or "tostring" in w) for w in wdefs):
+        why.append("payload is not the bit characters of the block")
+    return why
 
 
 def _framing_by_value(ctx, sd, strict=False):
